@@ -95,6 +95,7 @@ def run(rep, tier):
         arith(rep, meta, sfx)
         visited(rep, meta, sfx)
         unroll_phase(rep, meta, sfx)
+    render(rep, facts.facts("default").crate("pest"))
 
 
 def scope(meta):
@@ -279,6 +280,16 @@ def zero(rep, meta, sfx):
                         c = peel(g[1])
                         if kind(c) == "Binary" and c["op"] in ("!=", ">") and hirq.lit_value(c["r"]) == 0 and hirq.local_id(c["l"]) == cnt:
                             ok = True
+                    if g[0] == "try":
+                        # `ensure_nonzero(count, ..)?;` - a checking helper whose summary is read from its body: it
+                        # returns Err on the path where the parameter that receives `count` is 0
+                        call = peel(g[1])
+                        h = meta.fn(callee(call)) if kind(call) in ("Call", "MethodCall") and isinstance(callee(call), str) else None
+                        if h is not None:
+                            args = hirq.call_args(call)
+                            for i, a in enumerate(args):
+                                if hirq.local_id(a) == cnt and i in zero_rejecting_params(h):
+                                    ok = True
                 r.instance(v, where(x))
                 if not ok:
                     r.violation(v, where(x), "%s is built without rejecting a zero count first: the unroller's "
@@ -286,6 +297,20 @@ def zero(rep, meta, sfx):
     for v in COUNTED:
         if v not in found:
             r.violation(v + ":site", "", "construction site of %s not found in the reader" % v)
+
+
+def zero_rejecting_params(h):
+    """Indices of the parameters p of h for which h's body has `if p == 0 { return Err(..) }` (then-branch diverging)."""
+    out = set()
+    pid = {p["id"]: i for i, p in enumerate(h["params"]) if p.get("k") == "PBind"}
+    for x in walk(h["body"]):
+        if kind(x) == "If" and hirq.diverges(x["then"]):
+            c = peel(x["cond"])
+            if kind(c) == "Binary" and c["op"] == "==" and hirq.lit_value(c["r"]) == 0 and hirq.local_id(c["l"]) in pid:
+                rets = [y for y in walk(x["then"]) if kind(y) == "Ret" and y.get("e") is not None]
+                if rets and all(kind(peel(y["e"])) == "Call" and callee(peel(y["e"])) == "core::result::Result::Err" for y in rets):
+                    out.add(pid[hirq.local_id(c["l"])])
+    return out
 
 
 def grammar_number_bindings(fn):
@@ -422,3 +447,39 @@ def unroll_phase(rep, meta, sfx):
     c05.unroll(rep, meta, sfx)
     for rr in rep.rules[before:]:
         rr.name = "C09.UNROLL" + sfx
+
+
+# ------------------------------------------------------------------ RENDER
+
+def render(rep, pest):
+    r = rep.rule("C09.RENDER", 8,
+                 "every reported error can be rendered: the functions of pest::error that Display::fmt reaches never slice "
+                 "a string by a computed range (columns are counted in characters, a byte slice at a column panics on "
+                 "non-ASCII text left of the error) and contain no panic!/assert!/unwrap/expect")
+    if pest is None:
+        r.lost("pest facts")
+        return
+    roots = [b["path"] for b in pest.bodies if b["path"].startswith("<pest::error::Error as core::fmt::Display>")]
+    if not roots:
+        r.lost("Display for pest::error::Error")
+        return
+    cg = hirq.CallGraph([pest])
+    for p in sorted(cg.reachable(roots)):
+        fn = pest.fn(p)
+        if fn is None or fn.get("exp") or fn.get("body") is None:
+            continue
+        if not (p.startswith("pest::error::") or p.startswith("<pest::error::")):
+            continue   # Position methods slice at their own (boundary) offset: C03.BOUNDARY
+        key = p.replace("pest::error::", "")
+        r.instance(key, where(fn["body"]))
+        for x in walk(fn["body"]):
+            if kind(x) == "Index" and "str" in (x["base"].get("ty") or "").replace("String", "str") \
+                    and "Range" in (x["idx"].get("ty") or "") and "RangeFull" not in (x["idx"].get("ty") or ""):
+                r.violation(key, where(x), "%s slices `%s` by `%s` while rendering: a column counted in characters (or "
+                            "one that counts a stripped CR) is not a byte boundary of the stored line" % (
+                                fn["name"], hirq.expr_text(x["base"])[:40], hirq.expr_text(x["idx"])[:40]))
+            cal = callee(x) if kind(x) in ("Call", "MethodCall") else None
+            if isinstance(cal, str) and (cal in hirq.PANIC_CALLEES or cal in (
+                    "core::option::Option::unwrap", "core::option::Option::expect", "core::result::Result::unwrap",
+                    "core::result::Result::expect")) and not any("unreachable" in e for e in (x.get("exp") or [])):
+                r.violation(key, where(x), "%s can panic while rendering (%s)" % (fn["name"], cal.split("::")[-1]))
